@@ -28,8 +28,15 @@ func perm(r *vlib.Rand, n int) []int {
 	return p
 }
 
-// distinct returns n distinct values in [lo, hi].
+// distinct returns n distinct values in [lo, hi] (n <= hi-lo+1).
 func distinct(r *vlib.Rand, n, lo, hi int) []int {
+	if 2*n > hi-lo+1 {
+		p := perm(r, hi-lo+1)[:n]
+		for i := range p {
+			p[i] += lo
+		}
+		return p
+	}
 	seen := map[int]bool{}
 	out := make([]int, 0, n)
 	for len(out) < n {
@@ -42,6 +49,13 @@ func distinct(r *vlib.Rand, n, lo, hi int) []int {
 	return out
 }
 
+func maxInt(a, b int) int {
+	if a > b {
+		return a
+	}
+	return b
+}
+
 func someGlyph(r *vlib.Rand, o *genOpts) int {
 	if o.dangling && r.Chance(1, 12) {
 		return o.n + r.Intn(3)
@@ -52,9 +66,9 @@ func someGlyph(r *vlib.Rand, o *genOpts) int {
 func genFont(r *vlib.Rand, o *genOpts) *Desc {
 	n := o.n
 	d := &Desc{Kind: o.kind}
-	outl := distinct(r, n, 1, 30000)
-	names := distinct(r, n, 1, 9999)
-	cids := distinct(r, n, 1, 60000)
+	outl := distinct(r, n, 1, maxInt(30000, n)) // at most 65535 (16 bits inside the outline)
+	names := distinct(r, n, 1, maxInt(9999, 2*n))
+	cids := distinct(r, n, 1, maxInt(60000, n))
 	rank := perm(r, n) // composites only refer to glyphs of lower rank (unless cycles are allowed)
 	nfd := 1
 	if o.kind == "cid" {
@@ -303,7 +317,7 @@ func Gen(run *vlib.Run, seed uint64, tier string) {
 	kinds := []string{"glyf", "cff", "cid"}
 
 	// (i) structured valid fonts
-	nv := vlib.Count(tier, 700, 20000)
+	nv := vlib.Count(tier, 700, 12000)
 	for i := 0; i < nv; i++ {
 		rr := r.Fork(fmt.Sprint("v", i))
 		o := &genOpts{kind: kinds[i%3], n: rr.Range(1, 14), dense: rr.Chance(1, 3), wrapDelta: rr.Chance(1, 4)}
@@ -320,7 +334,7 @@ func Gen(run *vlib.Run, seed uint64, tier string) {
 
 	// (ii) malformed stream: lists with duplicates / not starting with 0 / ids
 	// out of range, dangling references, cyclic composites
-	nm := vlib.Count(tier, 200, 5000)
+	nm := vlib.Count(tier, 200, 3000)
 	for i := 0; i < nm; i++ {
 		rr := r.Fork(fmt.Sprint("m", i))
 		o := &genOpts{kind: kinds[i%3], n: rr.Range(1, 10), dense: rr.Bool()}
@@ -357,7 +371,7 @@ func Gen(run *vlib.Run, seed uint64, tier string) {
 	// (iii) boundary stream: one-glyph fonts, the list [0], every glyph in
 	// font order and reversed, deltas that wrap around 65536, cmap codes at the
 	// format limits, every code of the built-in encoding in use
-	nb := vlib.Count(tier, 60, 1500)
+	nb := vlib.Count(tier, 60, 900)
 	for i := 0; i < nb; i++ {
 		rr := r.Fork(fmt.Sprint("b", i))
 		o := &genOpts{kind: kinds[i%3], n: rr.Range(2, 12), dense: true, wrapDelta: true}
@@ -411,7 +425,7 @@ func Gen(run *vlib.Run, seed uint64, tier string) {
 	}
 
 	// (iv) large fonts (compared with the model) ...
-	nlg := vlib.Count(tier, 6, 90)
+	nlg := vlib.Count(tier, 6, 60)
 	for i := 0; i < nlg; i++ {
 		rr := r.Fork(fmt.Sprint("l", i))
 		o := &genOpts{kind: kinds[i%3], n: rr.Range(200, 700), dense: rr.Bool(), wrapDelta: rr.Bool()}
@@ -421,7 +435,7 @@ func Gen(run *vlib.Run, seed uint64, tier string) {
 	// ... and very large ones, up to the uint16 limit of glyph ids (oracle only:
 	// the association-list model is quadratic)
 	if tier == "thorough" {
-		for i, n := range []int{5000, 20000, 65535, 65535, 65535} {
+		for i, n := range []int{5000, 20000, 65535, 65535} {
 			rr := r.Fork(fmt.Sprint("h", i))
 			o := &genOpts{kind: kinds[i%3], n: n, wrapDelta: true}
 			d := genFont(rr, o)
